@@ -1,10 +1,12 @@
 (* Props/C20.v — property C20: lanelet arc-length geometry and successor-route enumeration are sound.
-   Statements only; every proof is [exact <lemma of Proofs/ArcLen.v or Proofs/Routes.v>].
+   Statements only; every proof is [exact <lemma of Proofs/ArcLen.v, Proofs/Routes.v or Proofs/SrcArcLen.v>].
+   C20_model_is_source states that [cum] / [interpolate] are the Gallina text generated on every run from
+   commonroad/scenario/lanelet.py by harness/vlib/py2coq.py (Gen/Src_arclen.v).
    Vertices are (x, y, z) (a 2-D lanelet has z = 0 throughout); |.| is the Euclidean norm of all three coordinates.
    Segment lengths are oracle values [ls] (sqrt is not computed in Q): valid_lens P ls says 0 <= l_i and
    l_i^2 == |P_{i+1} - P_i|^2; [positive ls] is what "consecutive vertices distinct" gives for valid lengths. *)
-From Coq Require Import QArith ZArith Bool List.
-From CR Require Import Base.QMod Model.ArcLen Proofs.ArcLen Model.Routes Proofs.Routes.
+From Coq Require Import QArith ZArith Bool List String.
+From CR Require Import Base.QMod Base.PyRes Model.ArcLen Proofs.ArcLen Model.Routes Proofs.Routes Gen.Src_arclen Proofs.SrcArcLen.
 Import ListNotations.
 Open Scope Q_scope.
 
@@ -98,6 +100,28 @@ Theorem C20_routes_fuel_irrelevant : forall succ len start maxlen fuel R,
   routes succ len start maxlen fuel = Some R -> routes succ len start maxlen (S fuel) = Some R.
 Proof. exact routes_fuel_mono. Qed.
 
+(* ---- the model the theorems above are about IS the translated source (Gen/Src_arclen.v, regenerated every run):
+        Lanelet._compute_polyline_cumsum_dist([P]) and Lanelet.distance are [cum] of the lengths
+        seg_lens sqrt_ P = map sqrt_ (map norm2 (deltas P)) (np.sqrt uninterpreted; ValueError for an empty polyline);
+        Lanelet.interpolate_position of a lanelet whose cached _distance is None is [interpolate] at those lengths, with
+        the model's fuel or more, exception classes included (IAssert / IIndex / INan = AssertionError / IndexError /
+        "nan"); and those lengths satisfy the oracle hypothesis valid_lens whenever sqrt_ is a square root ---- *)
+Theorem C20_model_is_source : forall (sqrt_ : Q -> Q) (P : list pt) (l : lanelet) (s : Q) (fuel : nat),
+  src_cumsum_dist sqrt_ P = match P with [] => PRaise "ValueError"%string | _ => POk (cum (seg_lens sqrt_ P)) end /\
+  src_distance sqrt_ l
+    = match l_center l with [] => PRaise "ValueError"%string | _ => POk (cum (seg_lens sqrt_ (l_center l))) end /\
+  (l_center l <> [] -> (S (S (List.length (cum (seg_lens sqrt_ (l_center l))))) <= fuel)%nat ->
+   src_interpolate sqrt_ fuel l s
+   = Some (ires_to_pyres (interpolate (l_center l) (l_right l) (l_left l) (seg_lens sqrt_ (l_center l)) s))) /\
+  (l_center l = [] -> src_interpolate sqrt_ fuel l s = Some (PRaise "ValueError"%string)) /\
+  (forall a b, ires_to_pyres a = ires_to_pyres b -> a = b) /\
+  ((forall x, 0 <= x -> 0 <= sqrt_ x /\ sqrt_ x * sqrt_ x == x) -> valid_lens P (seg_lens sqrt_ P)).
+Proof.
+  exact (fun sqrt_ P l s fuel =>
+    conj (src_cumsum_dist_eq sqrt_ P) (conj (src_distance_eq sqrt_ l) (conj (src_interpolate_eq sqrt_ fuel l s)
+    (conj (src_interpolate_empty sqrt_ fuel l s) (conj ires_to_pyres_inj (seg_lens_valid sqrt_ P)))))).
+Qed.
+
 (* ---- non-vacuity ---- *)
 (* the ramp (0,0,0),(3,0,4),(3,6,4) (climbs 4 over the first 3, then level) with lengths 5, 6: valid, positive
    (the plan-view lengths 3, 6 are NOT valid); s = 5 (exactly at the vertex) gives segment 0 and the vertex itself;
@@ -136,3 +160,4 @@ Print Assumptions C20_routes.
 Print Assumptions C20_routes_sound.
 Print Assumptions C20_routes_fuel_irrelevant.
 Print Assumptions C20_nonvacuous.
+Print Assumptions C20_model_is_source.
